@@ -510,6 +510,19 @@ func (r *run) roleOf(c *ast.CallExpr) Role {
 
 // isRun reports whether c calls a function-typed field named run of a grammar node (a code block).
 func (r *run) isRun(c *ast.CallExpr) bool {
+	// a code block handed on as a function value: a parameter or local of function type, called with the parser
+	if id, ok := c.Fun.(*ast.Ident); ok {
+		if v, isVar := r.in.Info.ObjectOf(id).(*types.Var); isVar && !v.IsField() {
+			if _, isSig := v.Type().Underlying().(*types.Signature); isSig {
+				for _, a := range c.Args {
+					if r.in.isP(a) {
+						return true
+					}
+				}
+			}
+		}
+		return false
+	}
 	sel, ok := c.Fun.(*ast.SelectorExpr)
 	if !ok {
 		return false
@@ -774,6 +787,65 @@ func (r *run) ret(s *State, x *ast.ReturnStmt) []outcome {
 		if c, ok := x.Results[0].(*ast.CallExpr); ok && r.effectful(c) {
 			return r.call(s, c)
 		}
+	}
+	// exactly one result is an effectful call (possibly negated): the other results are evaluated in the state each
+	// of its outcomes leaves (they are pure, so the order does not matter)
+	strip := func(e ast.Expr) (ast.Expr, bool) {
+		neg := false
+		for {
+			switch y := e.(type) {
+			case *ast.ParenExpr:
+				e = y.X
+				continue
+			case *ast.UnaryExpr:
+				if y.Op == token.NOT {
+					neg = !neg
+					e = y.X
+					continue
+				}
+			}
+			return e, neg
+		}
+	}
+	nEff, iEff := 0, -1
+	for i, e := range x.Results {
+		inner, _ := strip(e)
+		if c, ok := inner.(*ast.CallExpr); ok && r.effectful(c) {
+			nEff++
+			iEff = i
+		}
+	}
+	if nEff == 1 && len(x.Results) > 1 {
+		inner, neg := strip(x.Results[iEff])
+		var out []outcome
+		for _, o := range r.call(s, inner.(*ast.CallExpr)) {
+			v := Unk("call")
+			if len(o.res) > 0 {
+				v = o.res[0]
+			}
+			if neg {
+				switch {
+				case v.IsTrue():
+					v = Bool(false)
+				case v.IsFalse():
+					v = Bool(true)
+				case v.K == "bool":
+					v = Val{K: "bool", A: "U", B: "!" + v.B}
+				default:
+					v = BoolU(r.in.exprText(x.Results[iEff]))
+				}
+			}
+			var vs []Val
+			for i, e := range x.Results {
+				if i == iEff {
+					vs = append(vs, v)
+				} else {
+					vs = append(vs, r.eval(o.s, e))
+				}
+			}
+			out = append(out, outcome{o.s, vs})
+		}
+		return out
 	}
 	var vs []Val
 	for _, e := range x.Results {
@@ -1473,6 +1545,12 @@ func (r *run) applySummary(s *State, c *ast.CallExpr, site string, sum *Result) 
 						return args[i]
 					}
 				}
+				// the boolean a code block returned inside the helper: its site is re-based like the run event's
+				for _, pre := range []string{"run:", "!run:"} {
+					if strings.HasPrefix(v.B, pre) {
+						v.B = pre + site + "/" + strings.TrimPrefix(v.B, pre)
+					}
+				}
 			}
 			if len(v.F) > 0 {
 				nf := map[string]Val{}
@@ -1506,6 +1584,9 @@ func (r *run) applySummary(s *State, c *ast.CallExpr, site string, sum *Result) 
 					ne.Args[i] = paramText[a]
 				case ev.Kind == "eval" && i == 3, ev.Kind == "run" && i == 1:
 					ne.Args[i] = site + "/" + a
+				case strings.HasPrefix(a, "err(") && strings.HasSuffix(a, ")"):
+					// the error value of a block run inside the helper: named after the run's re-based site
+					ne.Args[i] = "err(" + site + "/" + a[4:len(a)-1] + ")"
 				}
 			}
 			for i, v := range ne.Vals {
@@ -1545,6 +1626,22 @@ func (r *run) applySummary(s *State, c *ast.CallExpr, site string, sum *Result) 
 		}
 		for _, u := range es.Und {
 			t.undecided("in helper %s: %s", name, u)
+		}
+		// what the helper's exit knows about the nil-ness of its own locals (the error of a block it ran) stays known,
+		// under a name that cannot collide with the caller's variables
+		for f, v := range es.Facts {
+			if i := strings.Index(f, " != nil"); i > 0 && i+len(" != nil") == len(f) && token.IsIdentifier(f[:i]) {
+				sfx := strings.Map(func(r rune) rune {
+					if r == '_' || (r >= '0' && r <= '9') || (r >= 'a' && r <= 'z') || (r >= 'A' && r <= 'Z') {
+						return r
+					}
+					return '_'
+				}, site)
+				if t.Facts == nil {
+					t.Facts = map[string]bool{}
+				}
+				t.Facts[f[:i]+"_in_"+name+"_"+sfx+" != nil"] = v
+			}
 		}
 		var res []Val
 		for _, v := range ex.Vals {
